@@ -40,8 +40,34 @@ func restoredSummary(w *World, data []byte, exists bool, siblings ...map[string]
 		return "", err
 	}
 	sum := routerSummary(r)
-	for _, s := range r.services.services {
-		s.Dispose()
+	defer func() {
+		for _, s := range r.services.services {
+			s.Dispose()
+		}
+	}()
+	// the proxy that started from this image keeps its state file current: after one more command (stop of its
+	// first service) the file restores to the configuration then in force - whatever the killed process left next to it
+	leftovers := 0
+	for _, sib := range siblings {
+		leftovers += len(sib)
+	}
+	if names := sortedKeys(r.services.services); leftovers > 0 && len(names) > 0 {
+		defer os.Remove(p) // (the command may have created it)
+		if err := r.StopService(names[0], 0, "after-restart"); err != nil {
+			return "", fmt.Errorf("stop after the restart failed: %v", err)
+		}
+		live := routerSummary(r)
+		r2 := NewRouter(p)
+		if err := r2.RestoreLastSavedState(); err != nil {
+			return "", fmt.Errorf("state file unreadable after a command that followed the restart: %v", err)
+		}
+		got := routerSummary(r2)
+		for _, s := range r2.services.services {
+			s.Dispose()
+		}
+		if got != live {
+			return "", fmt.Errorf("after the restart a further command (stop %s) returned, but the state file restores to {%s} while {%s} is in force (temporary files left by the killed process: %d)", names[0], got, live, leftovers)
+		}
 	}
 	return sum, nil
 }
